@@ -493,7 +493,7 @@ Definition step (fuel : nat) (st : istate) (o : op) : M (istate * out) :=
           expert_add_dependency fuel result lhs_change CbNone ;;;
           create_node (KMap (Clo 0 0 [] true) [result]))
   | OpMemoNew f => s <- get ;; memo_new (handles_bindfn (handles s) f) ;;; ret (st, OutUnit)
-  | OpMemoCall m key => mk (memo_call fuel m key)
+  | OpMemoCall m key => mk (memo_call fuel [] m key)
   | OpExpert mode =>
       mk (s <- get ;;
           modify (fun s => s <| experts := experts s ++ [Expert mode [] false 0 true 0%nat 0] |>) ;;;
